@@ -77,6 +77,12 @@ func (k c03Case) run() (verdict string, errText string) {
 		}()
 		var out, dump bytes.Buffer
 		vm := goat.New(goat.WithStdout(&out))
+		// a host native that evaluates source on the VM it is called from (an "eval" builtin of the embedding)
+		vm.Set("main.hostEval", goat.NewFunc(1, 0, func(vm *goat.VM, args []goat.Value) {
+			if _, err := vm.Eval(nil, "inner", args[0].String()); err != nil {
+				panic(err)
+			}
+		}))
 		sys := fstest.MapFS{}
 		for n, d := range k.Files {
 			sys[n] = &fstest.MapFile{Data: []byte(d)}
@@ -378,6 +384,8 @@ func runC03(c *Ctx) error {
 		{"complement", "x := ", "^", "1", "", 6000000}, {"minus", "x := ", "- ", "1", "", 3000000},
 		{"pointer type", "var x ", "*", "int", "", 6000000}, {"slice type", "var x ", "[]", "int", "", 3000000},
 		{"map type", "var x ", "map[int]", "int", "", 1000000}, {"struct type", "type T ", "struct { a ", "int", " }", 300000},
+		// a constant group copies the expression of a specification while it is parsed (fix e4f7ce6)
+		{"operator chain in a constant group", "const (\n\tA = 1", "+1", "\n\tB\n)\nprintln(A)", "", 12000000},
 		// (not Go, but any source text counts) an assignment nested in the index operand of a compound assignment: the
 		// operand is compiled once, not once for the read and once for the store at every level
 		{"compound assignment in index", "a := []int{0, 0}\na", "[a", "[0]", " += 0]", 60}, {"compound assignment in index, deeper", "a := []int{0, 0}\na", "[a", "[0]", " += 0]", 2500},
@@ -441,8 +449,13 @@ func runC03(c *Ctx) error {
 		// the recursion passes through a native that calls back into the script (a sort comparator)
 		"import \"golang.org/x/exp/slices\"\nvar depth = 0\nfunc rec() {\n\tdepth++\n\tif depth >= %d {\n\t\treturn\n\t}\n\ts := []int{2, 1}\n\tslices.SortFunc(s, func(a, b int) bool {\n\t\trec()\n\t\treturn a < b\n\t})\n}\nrec()\nprintln(depth)",
 		"import \"golang.org/x/exp/slices\"\nvar depth = 0\nfunc rec() {\n\tdepth++\n\tif depth >= %d {\n\t\treturn\n\t}\n\ts := []int{2, 1}\n\tslices.SortStableFunc(s, func(a, b int) bool {\n\t\trec()\n\t\treturn a < b\n\t})\n}\nrec()\nprintln(depth)",
+		// ... and through a host native that calls Eval on the running VM (fix fd8fe1d)
+		"var depth = 0\nfunc rec() {\n\tdepth++\n\tif depth >= %d {\n\t\treturn\n\t}\n\thostEval(\"rec()\")\n}\nrec()\nprintln(depth)",
 	} {
 		depths := []int{1000, 100000, 3000000}
+		if strings.Contains(src, "hostEval") {
+			depths = []int{100, 1000, 3000000}
+		}
 		if strings.Contains(src, "slices.") {
 			depths = []int{100, 1000} // (a call made by a native counts for more)
 			if strings.Contains(src, "slices.SortFunc") {
@@ -456,7 +469,7 @@ func runC03(c *Ctx) error {
 			c.PendingDone()
 			c.Rep.Oracle["no-escape"]++
 			c.Rep.Count("eval-deep-recursion")
-			if verdict == "" && (depth <= 1000 || depth <= 100000 && !strings.Contains(src, "slices.")) && et != "" && et != "<nil>" {
+			if verdict == "" && (depth <= 1000 || depth <= 100000 && !strings.Contains(src, "slices.") && !strings.Contains(src, "hostEval")) && et != "" && et != "<nil>" {
 				verdict = "a recursion of depth " + fmt.Sprint(depth) + " failed: " + et[:min(len(et), 200)]
 			}
 			if verdict != "" {
